@@ -85,11 +85,11 @@ def _classify(ret, b):
 
 
 @rule('C10.c', min_instances=16)
-def primitive_predicates(ctx):
+def primitive_predicates(ctx, only=None):
     """each primitive condition answers 'satisfied' exactly on the documented predicate (truth-table equivalence over its atomic tests)"""
     seen = set()
     for name, fac, inner in _factories(ctx):
-        if name == GRADIENT:
+        if name == GRADIENT or (only is not None and name not in only):
             continue
         if name not in SPEC:
             ctx.undecided('termination factory %s has no specification row' % name)
@@ -128,10 +128,12 @@ def primitive_predicates(ctx):
             ctx.bad(name, 'the condition does not answer "satisfied" exactly when `%s`: e.g. with the tests {%s} true and all others false '
                     'the code says %s' % (expr, '; '.join(true_atoms), PC.ev(got, cex)), inner, inner.node,
                     statement='predicate of %s differs from its documented form' % name)
-    missing = set(SPEC) - seen
+    missing = (set(SPEC) if only is None else set(only)) - seen
     ctx.need(not missing, 'termination factories vanished: %s' % sorted(missing))
     # look-back index and guard agree: hist[-gens] is used only behind lg > gens
     for name, fac, inner in _factories(ctx):
+        if only is not None and name not in only:
+            continue
         idx = [n for n in walk_no_nested(inner.node) if isinstance(n, ast.Subscript) and isinstance(n.value, ast.Name) and n.value.id == 'hist'
                and isinstance(n.slice, ast.UnaryOp) and isinstance(n.slice.operand, ast.Name)]
         for n in idx:
